@@ -52,11 +52,26 @@ RULE = ("(1) guards.run: histories of requests against the real kvarn::handle_ca
         "the specified result is the empty list. (3) guards.push: a public HTML page that links every fixture file, fetched over TLS + HTTP/2 by "
         "listed and not listed clients (IPv4, IPv6, loopback); every response kvarn_extensions::push PUSHES (its internal handle_cache request) "
         "is judged by the marker oracle like an answer; at least two pushed responses per fetch or the case counts as not executed. "
+        "(4) FILES THAT CHANGE: the fixture rewrites public files between two requests of a history (op 4 of guards.run / guards.wire; model: a "
+        "new world, theorem guarded_content_confined_changing_files): the path has a vary rule and an item in the response cache from an earlier "
+        "version of the file (public page, hidden, other list) or from before its deployment (cached 404); the file gets a guard line; a listed "
+        "client asks for a variant the item lacks (handle_vary_missing), then strangers ask for it (GET/HEAD, queries, conditional, other "
+        "spellings, default redirect /idx/); later versions follow (list edited, public again, hidden). Replies are judged by the version the "
+        "server holds at that moment (spec component and Python oracle). (5) LONG '!> ' LINES: allow lists of 1..100 IPv4/IPv6 addresses with the "
+        "listed client first / in the middle / last, up to 40 directives, arguments of 300..600 bytes, hide or the deciding allow-ips at the very "
+        "end; lines fitted to 255..257, 511..513, 1023..1025 bytes in guards.run (4095..4097 in the thorough tier) and to 4095..4097, 16383/4, "
+        "65536, 65537 bytes in guards.wire (marker oracle and refused-vs-absent comparison inside the harness; the Gallina parser transcribes "
+        "the Rust loop and is quadratic in the line length). "
         "distinct_nontrivial = distinct (scenario, outcome) pairs in which a listed address received guarded content and a later request was refused")
 ASSUMPTIONS = [
-    "what the server holds for a path (file-cache entry, else disk) does not change during a history, and there are no links that give a "
+    "files may change between two requests of a history (guarded_content_confined_changing_files: any sequence of worlds = public files, "
+    "error pages, template engine; in every world the secret occurs only in guarded files; a reply is judged by the world of its moment) but "
+    "not DURING a request (the fixture renames a complete file into place); refused_reply_is_404, hidden_file_indistinguishable_from_absent and "
+    "the file-cache theorems are about histories with fixed files (after a change the response cache may still hold - and serve - the answers "
+    "of an earlier version: its 200 while the page was public, its 404; never a guarded version's content). There are no links that give a "
     "guarded file a second name (fs is a function of the path text; the fixture tree uses PathSan's resolution: ENOTDIR, empty and '.' "
-    "components, '..'); the file cache itself - any initial content, any fills - is covered by file_cache_transparent",
+    "components, '..'); the file cache itself - any initial content, any fills - is covered by file_cache_transparent; in the scenario model "
+    "only public files are rewritten (read::file never fills the file cache)",
     "the secret (any byte string) occurs in no error page and templates introduce no guarded content (hypotheses Herr_clean / Htmpl of "
     "guarded_content_confined; error pages MAY carry a '!> ' line and be '!> tmpl' templates). A page whose '!> tmpl' argument names a guarded "
     "file violates Htmpl: known class tmpl-names-guarded-file",
@@ -75,7 +90,8 @@ ASSUMPTIONS = [
 ]
 TRUSTED = ["modelled: extensions/src/lib.rs ip_allow, hide (incl. a templated 404 page), cache, download, templates (Model/Templates.v, C02), mount_all; "
            "src/extensions.rs resolve_present; src/error.rs default (errors/<code>.html or the hard-coded page); src/lib.rs get_response/"
-           "handle_request file path and the CORS denial route + handle_cache in full (Model/CacheX.v, C03/C04); src/read.rs file / file_cached "
+           "handle_request file path and the CORS denial route + handle_cache in full (Model/CacheX.v, C03/C04; incl. handle_vary_missing's admission test); the "
+           "fixture's write op as a change of the world between two operations; src/read.rs file / file_cached "
            "(file cache as a map with negative entries); std Path::extension, core::net::parser IpAddr::from_str (IPv4 and IPv6, Rust 1.95), "
            "ClientCachePreference/ServerCachePreference::from_str; Model/PresentLine.v (C16) for the '!> ' line; Model/PathSan.v (C01) for "
            "decoding/sanitize"]
@@ -88,6 +104,15 @@ LEVEL_TEXT = ("Coq theorem guarded_content_confined over the model of the repair
               "*.private, and whose every allow-ips directive lists the request's own client address (reply_ok_meaning). Proof: per-request decision "
               "of the layer below the cache (an answer with the secret is an answer to a permitted request AND has server preference None, "
               "whatever cache directives surround allow-ips) + inductive cache invariant (what was admitted carries no secret). "
+              "guarded_content_confined_changing_files: the same for files that CHANGE during the history - a history is any list of (world, "
+              "operation), the response cache lives through it and may hold answers of earlier worlds; a reply with the secret answers a request "
+              "permitted in the world of its own moment; in particular the 200 computed for a listed client is never pushed as a new variant into an "
+              "item cached earlier (the admission test of handle_vary_missing; refuted without it: vary_admission_v0_refuted, the history public "
+              "page cached -> allow-ips line deployed -> listed client, other variant -> stranger, same variant); changing_files_extends_fixed_files / "
+              "scenario_without_writes_unchanged tie it to run_g and to the scenario runner of the differential run. guard_line_any_length / "
+              "long_allow_list_decides: the '!> ' line has no length limit - for every line of C16's grammar (any number of words of any length) the "
+              "directives are those written, and an allow list of ANY length refuses (host's 404) every address no argument lists and serves, "
+              "uncached, those it lists. "
               "file_cache_transparent + guarded_content_confined_with_file_cache: the same with the file cache as state, for any initial content "
               "(stale, negative entries), any fills, on or off - 'content of a file' is what the server holds for its path. refused_reply_is_404: in "
               "every history the reply to a request for a hidden / private / not-listed file is the host's 404 page as served for a path that does "
@@ -100,9 +125,10 @@ LEVEL_TEXT = ("Coq theorem guarded_content_confined over the model of the repair
               "with oracles that do not depend on the model (marker, refused-vs-absent twins, wire-level judge, pushed responses).")
 LEVEL_NOTE = ("Trusted: Coq kernel; extraction (sample re-checked in-kernel); hand transcription validated by the differential run; "
               "fs / error pages / template engine / negotiation / vary / Prime extensions as section variables with the stated hypotheses; Range, "
-              "HEAD and the rest of SendKind::send are not modelled (range_of_clean_body_clean + the wire-level oracle). No axioms. All 21 "
-              "statements are pinned (driver/props/pins/C17.json).")
-TECHNIQUE = ("Coq proof (cache invariants over all histories + per-request decision + simulation for the file cache) + differential correspondence on "
+              "HEAD and the rest of SendKind::send are not modelled (range_of_clean_body_clean + the wire-level oracle). Lines longer than 1025 "
+              "bytes (4097 thorough) are run against the real code only (wire component: marker oracle + refused-vs-absent), the theorem about "
+              "them is over the model's parser. No axioms. All 28 statements are pinned (driver/props/pins/C17.json).")
+TECHNIQUE = ("Coq proof (cache invariants over all histories, also with files that change + per-request decision + simulation for the file cache) + differential correspondence on "
              "kvarn::handle_cache with secret-marker, refused-vs-absent and wire-level oracles")
 
 REPORT = [b"cache-control", b"?last-modified"]
@@ -717,7 +743,7 @@ def long_line(rng, edges, kmax=100, near=True):
     else:
         line = b"!> " + allow + rng.choice([b"", b"", b" &> cache server:full"])
     bigger = [e for e in edges if e >= len(line)]
-    if bigger and rng.random() < 0.8:
+    if bigger and (len(edges) == 1 or rng.random() < 0.8):
         tgt_len = rng.choice(bigger[:4] if near else bigger)
         if shape in ("hide-last", "allow-last", "two-lists"):
             # what decides stands at the END of the line: fit in front of it
@@ -757,7 +783,7 @@ def long_line_wire_cases(rng, n):
     with the answer for a path that does not exist (no model run is needed for that)"""
     cases = []
     for i in range(n):
-        edges = [rng.choice(LINE_EDGES_BIG[2:])] if i % 6 == 0 else (LINE_EDGES_4K + LINE_EDGES_BIG) if i % 2 == 0 else (LINE_EDGES[3:] + LINE_EDGES_4K)
+        edges = [65536 + (i // 6) % 2] if i % 6 == 0 else (LINE_EDGES_4K + LINE_EDGES_BIG) if i % 2 == 0 else (LINE_EDGES[3:] + LINE_EDGES_4K)
         rel, line, crlf, listed, pool, shape = long_line(rng, edges, near=False)
         files = [xl(xb(b"public/" + rel), xb(content(line, rel, rng, True, crlf=crlf)))]
         hidden, allow = _py_guard(rel, line + b"\n")
@@ -780,6 +806,34 @@ def long_line_wire_cases(rng, n):
                 ops.append(wreq(sp, m, a, h, b"", 0))
         cases.append(Case("guards.wire", pipe.scenario(pipe.cfg(cache=rng.random() < 0.8, fcache=rng.random() < 0.7, files=files, default_ext=False), ops),
                           "guards.wire", {"kind": "wire/long-line/%dk" % (len(line) // 1000)}))
+    return cases
+
+
+def transition_wire_cases(rng, n):
+    """files that change, over the wire (what SendKind::send wrote of a variant added to an item of an earlier world: Range, HEAD)"""
+    cases = []
+    for i in range(n):
+        rel = rng.choice([b"page.html", b"t/doc.txt", b"news"])
+        sp = b"/" + rel
+        vary = [pipe.vary_rule(sp, [(b"x-v", 0, b"-")])]
+        files = [xl(xb(b"public/other.txt"), xb(content(None, b"other.txt", rng, False)))]
+        if rng.random() < 0.6:
+            files.append(xl(xb(b"public/" + rel), xb(content(rng.choice(PLAIN_LINES[:5]), rel, rng, False))))
+        hs = lambda v: [(b"x-v", v)] + rng.choice([[], [], [(b"range", b"bytes=0-40")], [(b"accept-encoding", b"gzip")], [(b"range", b"bytes=-30")]])
+        meth = lambda: rng.choice([b"GET", b"GET", b"GET", b"HEAD"])
+        stranger = lambda: rng.choice(ADDRS[2:] + STRANGERS)
+        ops = [wreq(sp, meth(), stranger(), hs(b"a"), b"", 0)]
+        vals = [b"b", b"c", b"d"]
+        for rd in range(rng.randrange(1, 3)):
+            line = rng.choice(ALLOW_LINES[:14] + HIDE_LINES[:2]) if rd else rng.choice(ALLOW_LINES[:14])
+            hidden, allow = _py_guard(rel, line + b"\n")
+            ops.append(gwrite(rel, content(line, rel, rng, True)))
+            v = vals[rd]
+            for a in [rng.choice(SAME_AS_1), stranger(), stranger(), rng.choice(SAME_AS_1), stranger()]:
+                ok = (not hidden) and allow is not None and py_ip(xaddr(a)) in allow
+                ops.append(wreq(sp, meth(), a, hs(rng.choice([v, v, v, b"a"])), rel if ok else b"", 0))
+        cases.append(Case("guards.wire", pipe.scenario(pipe.cfg(cache=True, fcache=rng.random() < 0.7, files=files, vary=vary, default_ext=False), ops),
+                          "guards.wire", {"kind": "wire/transition"}))
     return cases
 
 
@@ -871,6 +925,7 @@ def generate(rng, tier):
     cases += long_line_cases(rng, 36 if tier == "quick" else 500, tier)
     cases += wire_cases(rng, 36 if tier == "quick" else 500)
     cases += long_line_wire_cases(rng, 12 if tier == "quick" else 120)
+    cases += transition_wire_cases(rng, 8 if tier == "quick" else 100)
     cases += push_cases(rng, 6 if tier == "quick" else 60)
     cases += expiry_cases(rng, 2 if tier == "quick" else 8)
     return cases
@@ -1143,22 +1198,36 @@ def directed(rng, mismatches):
         twins = []
         ops = history(rng, sps, extra_addrs=2, methods=False, twins=twins)
         cases += mk(rng, files, ops, "directed", both=False, cache=True, fcache=True, twins=twins, plain_err=plain_err)
+    cases += transition_cases(rng, 40) + long_line_cases(rng, 30, "quick")
     return cases
 
 
 def extra_coverage(cases, impl, model, spec):
-    nreq = served = refused = spellings = v6 = twins_n = wire = wire_req = 0
+    nreq = served = refused = spellings = v6 = twins_n = wire = wire_req = writes = after_write = longest = long_files = 0
     seen = set()
     for c in cases:
         i = impl.get(c.id)
         if i is None:
             continue
+        for f_ in (e[1][1][1] for e in c.x[1][0][1] if e[1][0][1] == b"files"):
+            for f in f_:
+                d_ = f[1][1][1]
+                if d_.startswith(b"!> ") and b"\n" in d_:
+                    longest = max(longest, d_.index(b"\n"))
+                    long_files += d_.index(b"\n") >= 512
         if c.comp in ("guards.wire", "guards.push"):
             wire += 1
             wire_req += sum(1 for o in c.x[1][1][1] if o[1][0][1] == 0)
             continue
         try:
             _, ops, tw = _scenario(c)
+            w_seen = False
+            for o in ops:
+                if o[1][0][1] == 4:
+                    writes += 1
+                    w_seen = True
+                elif o[1][0][1] == 0 and w_seen:
+                    after_write += 1
             rs = xparse(i)[1]
         except Exception:
             continue
@@ -1179,7 +1248,9 @@ def extra_coverage(cases, impl, model, spec):
                 refused += 1
     return {"requests": nreq, "requests_from_ipv6_clients": v6, "distinct_percent_encoded_targets": spellings,
             "replies_with_guarded_content_to_listed_address": served, "replies_404": refused,
-            "refused_vs_absent_pairs_compared": twins_n, "wire_histories": wire, "wire_requests": wire_req}
+            "refused_vs_absent_pairs_compared": twins_n, "wire_histories": wire, "wire_requests": wire_req,
+            "file_rewrites_during_histories": writes, "requests_after_a_rewrite": after_write,
+            "guarded_files_with_line_of_512_bytes_or_more": long_files, "longest_guard_line_bytes": longest}
 
 
 def describe(c):
